@@ -90,7 +90,10 @@ def gen_plan(rng, tier, idx, opts):
             sel = gen_sel(rng, fft)
             plan["ops"].append({"op": "freq", "fft": fft, "sel": sel, "blocks": rng.randint(1, 4), "seed": s()})
         elif r < 0.87:
-            plan["ops"].append({"op": "switch", "v": rng.random() < 0.6})
+            if rng.random() < 0.2:      # a REJECTED setter (non-bool): the fault-like event of this world
+                plan["ops"].append({"op": "switch_bad", "v": rng.choice(["int1", "int0", "none", "np_true", "str"])})
+            else:
+                plan["ops"].append({"op": "switch", "v": rng.random() < 0.6})
         elif kind in ("su", "sumimo", "mu", "mumimo"):
             if rng.random() < 0.25:
                 plan["ops"].append({"op": "pathloss", "seed": None})
@@ -253,6 +256,21 @@ def execute(plan):
                     ch.switched_direction = bool(op["v"])
                     switched = bool(op["v"])
                     log.add("switch", switched)
+                    continue
+                if o == "switch_bad":
+                    bad = {"int1": 1, "int0": 0, "none": None, "np_true": np.True_, "str": "yes"}[op["v"]]
+                    try:
+                        ch.switched_direction = bad
+                        bump(res["probes"], "non_bool_direction_accepted")
+                    except TypeError:
+                        bump(res["faults"], "rejected-setter")
+                    # whatever happened, the PUBLIC state is what later transmissions must follow
+                    pub = ch.switched_direction
+                    if not isinstance(pub, (bool, np.bool_)):
+                        viol("direction_state", step, "switched_direction reads %r after assigning %r" % (pub, bad), op=o)
+                        break
+                    switched = bool(pub)
+                    log.add("switch_bad", op["v"], switched)
                     continue
                 if o == "pathloss":
                     if op["seed"] is None:
